@@ -244,12 +244,16 @@ type vscript struct {
 	toks   []string
 	silent bool // handshakeFail is played as accept-then-silent (60 s read timeout); thorough only
 	slow   bool // the SDK takes vSlowSDK to process an Up report (two connection events can then overlap)
+	rej    bool // "cl" is played by the READER: it rejects the service's own SetReaderConfig, so the service resets the connection itself
 }
 
 func (s vscript) request() string {
 	verb := "supervisor"
 	if s.slow {
 		verb = "supervisor-slowsdk"
+	}
+	if s.rej {
+		verb = "supervisor-rejcfg"
 	}
 	return fmt.Sprintf("%s %d %s", verb, s.up, strings.Join(s.toks, " "))
 }
@@ -384,7 +388,11 @@ loop:
 		}
 		established := make(chan struct{})
 		var once sync.Once
-		td.SetResponse(llrp.MsgSetReaderConfig, &vresp{inner: &llrp.SetReaderConfigResponse{}, fn: func() { once.Do(func() { close(established) }) }})
+		cfgResp := &llrp.SetReaderConfigResponse{}
+		if s.rej && kind == "cl" {
+			cfgResp.LLRPStatus = llrp.LLRPStatus{Status: llrp.StatusMsgFieldError, ErrorDescription: "keep-alive spec rejected"}
+		}
+		td.SetResponse(llrp.MsgSetReaderConfig, &vresp{inner: cfgResp, fn: func() { once.Do(func() { close(established) }) }})
 		readerDone := make(chan struct{})
 		go func() {
 			defer close(readerDone)
@@ -414,7 +422,9 @@ loop:
 			conn.Close()
 			lastFail = time.Now()
 		case "cl":
-			w.dev.resetConn()
+			if !s.rej {
+				w.dev.resetConn()
+			} // else: onConnect's SetReaderConfig was refused and the service resets the connection on its own
 		case "cs":
 			ctx, cancel := context.WithTimeout(context.Background(), time.Second)
 			_ = w.dev.Stop(ctx)
@@ -631,15 +641,33 @@ func TestVerifC15(t *testing.T) {
 	} {
 		scripts = append(scripts, vscript{up: 0, toks: t, slow: true}, vscript{up: 1, toks: t, slow: true})
 	}
+	// the reader refuses the service's own SetReaderConfig: the service resets the connection itself (a local close)
+	nrej := 0
+	for _, b := range scripts {
+		if b.slow || b.silent || b.rej {
+			continue
+		}
+		has := false
+		for _, t := range b.toks {
+			if t == "cl" {
+				has = true
+			}
+		}
+		if has && (nrej < 120 || vthorough()) {
+			scripts = append(scripts, vscript{up: b.up, toks: b.toks, rej: true})
+			nrej++
+		}
+	}
 	if only := os.Getenv("VERIF_C15_ONLY"); only != "" {
 		// replay: one script, e.g. "1 df st" or "slow 0 df ua:1 dr dr"
 		f := strings.Fields(only)
 		slow := f[0] == "slow"
-		if slow {
+		rej := f[0] == "rej"
+		if slow || rej {
 			f = f[1:]
 		}
 		up, _ := strconv.Atoi(f[0])
-		scripts = []vscript{{up: up, toks: f[1:], slow: slow}}
+		scripts = []vscript{{up: up, toks: f[1:], slow: slow, rej: rej}}
 	}
 
 	results := make([]string, len(scripts))
